@@ -2277,11 +2277,12 @@ def to_arrow(
                 selected_tags = tags == tag
                 this_index = index[selected_tags]
                 if mask is not None:
-                    length = int(numpy.ceil(len(this_index) / 8.0)) * 8
                     if len(numpy.unique(this_index)) == len(this_index):
+                        length = int(numpy.ceil(len(content) / 8.0)) * 8
                         this_bytemask = numpy.zeros(length, dtype=np.uint8)
                         this_bytemask[this_index] = bytemask[selected_tags]
                     else:
+                        length = int(numpy.ceil(len(this_index) / 8.0)) * 8
                         this_bytemask = numpy.empty(length, dtype=np.uint8)
                         this_bytemask[: len(this_index)] = bytemask[selected_tags]
                         this_bytemask[len(this_index) :] = 0
